@@ -671,3 +671,59 @@ twin('C07', 'c07-twin-atoms-reordered', CONTEXT,
      "        return exc_val is self._interrupt or super()._is_suppressed(exc_val)",
      "        return super()._is_suppressed(exc_val) or exc_val is self._interrupt",
      'disjuncts swapped')
+
+# ------------------------------------------------------------------------- C03
+mutant('C03', 'c03-postpone-swallows-foreign', NOTIF,
+       "    try:\n        await __HIBERNATE__\n    except Interrupt as err:\n        if err is not wake_up:\n            assert (\n                task is loop.activity\n            ), 'Break points cannot be passed to other coroutines'\n            raise\n    finally:\n        wake_up.revoke()\n\n\nasync def suspend",
+       "    try:\n        await __HIBERNATE__\n    except Interrupt as err:\n        pass\n    finally:\n        wake_up.revoke()\n\n\nasync def suspend",
+       'H', 'postpone swallows cancellations and scope interrupts')
+mutant('C03', 'c03-suspend-no-revoke', NOTIF,
+       "            raise\n    finally:\n        wake_up.revoke()\n\n\nclass Notification:",
+       "            raise\n\n\nclass Notification:",
+       'P', 'an interrupted suspend leaves its wake-up armed: it fires later into another wait')
+mutant('C03', 'c03-subscription-no-unsubscribe', NOTIF,
+       "        finally:\n            self.__unsubscribe__(task, wake_up)",
+       "        finally:\n            pass",
+       'P', 'a cancelled waiter stays subscribed and is woken later')
+mutant('C03', 'c03-unsubscribe-scheduled-ignored', NOTIF,
+       "        if interrupt.scheduled:\n            interrupt.revoke()\n        else:\n            self._waiting.remove((waiter, interrupt))",
+       "        if not interrupt.scheduled:\n            self._waiting.remove((waiter, interrupt))",
+       'S', 'a delivered-but-unconsumed signal is not revoked')
+mutant('C03', 'c03-run-revoked', LOOP,
+       "                if activation:\n                    self.turn += 1",
+       "                if True:\n                    self.turn += 1",
+       'D', 'revoked signals are thrown into activities that left the wait')
+mutant('C03', 'c03-activation-bool', LOOP,
+       "        return self.signal is None or not self.signal._revoked",
+       "        return self.signal is None or not self.signal.scheduled",
+       'D Activation.__bool__', 'scheduled signals are skipped')
+mutant('C03', 'c03-schedule-no-mark', LOOP,
+       "        if signal is not None:\n            signal.scheduled = True\n", "",
+       'D Loop.schedule', 'unsubscribe tries to remove a waiter that was already delivered')
+mutant('C03', 'c03-condition-subscribe-no-signal', COND,
+       "            __USIM_STATE__.loop.schedule(waiter, signal=interrupt)",
+       "            __USIM_STATE__.loop.schedule(waiter)",
+       'S', 'the waiter is resumed by a plain send: Hibernate returns into the body')
+mutant('C03', 'c03-moment-unsubscribe-delegates', TIMING,
+       "        if (waiter, interrupt) in self._waiting:\n            Notification.__unsubscribe__(self, waiter, interrupt)\n        else:\n            self._transition.__unsubscribe__(waiter, interrupt)",
+       "        self._transition.__unsubscribe__(waiter, interrupt)",
+       'S Moment', 'ValueError when leaving until(time == past)')
+mutant('C03', 'c03-cancel-schedule-before-register', TASK,
+       "                self._cancellations.append(cancellation)\n                cancellation.scheduled = True\n                __USIM_STATE__.loop.schedule(self.__runner__, signal=cancellation)",
+       "                cancellation.scheduled = True\n                __USIM_STATE__.loop.schedule(self.__runner__, signal=cancellation)",
+       'P', 'a cancellation racing with completion is delivered to a finished runner')
+mutant('C03', 'c03-wrapper-no-revoke', TASK,
+       "            for cancellation in self._cancellations:\n                cancellation.revoke()\n", "",
+       'P', 'pending cancellations hit the finished runner: StopIteration/RuntimeError')
+mutant('C03', 'c03-lock-swallows', LOCKS,
+       "                if self._owner == current_activity:\n                    self.__release__()\n                raise",
+       "                if self._owner == current_activity:\n                    self.__release__()",
+       'H', 'a cancelled lock waiter continues into the critical section')
+mutant('C03', 'c03-subscription-swallows-all', NOTIF,
+       "        except Interrupt as err:\n            if err is not wake_up:\n                assert (\n                    task is loop.activity\n                ), 'Break points cannot be passed to other coroutines'\n                raise\n        finally:\n            self.__unsubscribe__(task, wake_up)",
+       "        except Interrupt as err:\n            if err is wake_up:\n                raise\n        finally:\n            self.__unsubscribe__(task, wake_up)",
+       'H', 'own wake-up escapes, foreign signals are swallowed')
+twin('C03', 'c03-twin-finally-as-except', NOTIF,
+     "    loop.schedule(task, signal=wake_up)\n    try:\n        await __HIBERNATE__\n    except Interrupt as err:\n        if err is not wake_up:\n            assert (\n                task is loop.activity\n            ), 'Break points cannot be passed to other coroutines'\n            raise\n    finally:\n        wake_up.revoke()",
+     "    loop.schedule(task, signal=wake_up)\n    try:\n        await __HIBERNATE__\n    except Interrupt as err:\n        if err is not wake_up:\n            wake_up.revoke()\n            raise\n    except BaseException:\n        wake_up.revoke()\n        raise\n    wake_up.revoke()",
+     'finally written out as handlers')
